@@ -283,3 +283,199 @@ Proof.
   rewrite Ec, (cpp_read_roundtrip t v rest Ht Hs) in H. destruct H as [s' [Hm [_ Hp]]].
   exists chunks, s'. split; [assumption|]. rewrite Ec. split; assumption.
 Qed.
+
+(* ---------- stream steps: the batch capacity of the writing side is not observable ---------- *)
+Definition cpp_block (t : ty) (b : list val) : list N := venc (N.of_nat (length b)) ++ concat (map (enc t) b).
+
+Lemma chunks_spec : forall A fuel b (l : list A), (1 <= b)%nat -> (length l <= fuel)%nat ->
+  concat (chunks fuel b l) = l /\ Forall (fun c => c <> [] /\ (length c <= length l)%nat) (chunks fuel b l).
+Proof.
+  intros A fuel b. induction fuel as [|fuel IH]; intros l Hb Hf.
+  - destruct l; [split; [reflexivity|constructor]|cbn in Hf; lia].
+  - cbn [chunks]. destruct l as [|x l]; [split; [reflexivity|constructor]|].
+    assert (Hsk : (length (skipn b (x :: l)) <= fuel)%nat) by (rewrite skipn_length; cbn [length] in *; lia).
+    destruct (IH (skipn b (x :: l)) Hb Hsk) as [H1 H2]. split.
+    + cbn [concat]. rewrite H1. apply firstn_skipn.
+    + constructor.
+      * split; [destruct b; [lia|discriminate]|rewrite firstn_length; lia].
+      * eapply Forall_impl; [|exact H2]. intros c [Hc Hl]. split; [assumption|]. rewrite skipn_length in Hl. lia.
+Qed.
+
+Theorem cpp_read_stream_roundtrip : forall t blocks fuel rest,
+  forallb (fun b => nonempty b && forallb (has_type t) b && forallb vsmall b && (N.of_nat (length b) <? 2 ^ 64)) blocks = true ->
+  (length blocks < fuel)%nat ->
+  arun_c (cpp_read_stream fuel t) (concat (map (cpp_block t) blocks) ++ [0] ++ rest) = CVal (concat blocks) rest.
+Proof.
+  intros t blocks. induction blocks as [|b blocks IH]; intros fuel rest H Hf; (destruct fuel as [|fuel]; [cbn in Hf; lia|]).
+  - cbn [map concat app cpp_read_stream]. change (0 :: rest) with (venc 0 ++ rest). rewrite run_cvar64 by lia. reflexivity.
+  - cbn [forallb] in H. apply andb_true_iff in H. destruct H as [Hb Hbs].
+    apply andb_true_iff in Hb. destruct Hb as [Hb Hlen]. apply andb_true_iff in Hb. destruct Hb as [Hb Hsm].
+    apply andb_true_iff in Hb. destruct Hb as [Hne Hty].
+    cbn [map concat cpp_read_stream]. unfold cpp_block at 1. rewrite <- !app_assoc, run_cvar64 by lia.
+    assert (En : (N.of_nat (length b) =? 0) = false) by (destruct b; [discriminate|cbn [length]; lia]).
+    rewrite En, Nat2N.id, arun_cbind. unfold cpp_read.
+    rewrite (citems_rt true t b _ (cpp_read_roundtrip' t) Hty Hsm), arun_cbind.
+    cbn [length] in Hf. fold (cpp_read t). rewrite (IH fuel rest Hbs ltac:(lia)). reflexivity.
+Qed.
+
+Lemma cpp_stream_bytes : forall t batch items,
+  forallb (has_type t) items = true -> forallb vsmall items = true -> N.of_nat (length items) < 2 ^ 64 ->
+  cbytes (cpp_stream_ops t batch items) =
+  concat (map (cpp_block t) (if Nat.leb batch 1 then map (fun x => [x]) items else chunks (length items) batch items)) ++ [0].
+Proof.
+  intros t batch items Hty Hsm Hlen. unfold cpp_stream_ops. rewrite cbytes_app. f_equal.
+  destruct (Nat.leb batch 1) eqn:Eb.
+  - clear Hlen. induction items as [|x items IH]; [reflexivity|].
+    cbn [forallb] in Hty, Hsm. apply andb_true_iff in Hty. destruct Hty as [Hx Hxs]. apply andb_true_iff in Hsm. destruct Hsm as [Sx Sxs].
+    cbn [map concat]. rewrite cbytes_app, cbytes_cons, (cpp_wops_bytes t x Hx Sx), (IH Hxs Sxs).
+    unfold cpp_block. cbn [length map concat wbytes]. rewrite app_nil_r. reflexivity.
+  - apply Nat.leb_gt in Eb.
+    destruct (chunks_spec val (length items) batch items ltac:(lia) ltac:(lia)) as [Hc Hf].
+    assert (Hall : Forall (fun c => forallb (has_type t) c = true /\ forallb vsmall c = true) (chunks (length items) batch items)).
+    { rewrite <- Hc in Hty, Hsm. clear - Hty Hsm. induction (chunks (length items) batch items) as [|c cs IHc]; [constructor|].
+      cbn [concat] in Hty, Hsm. rewrite forallb_app in Hty, Hsm. apply andb_true_iff in Hty. apply andb_true_iff in Hsm.
+      destruct Hty as [T1 T2]. destruct Hsm as [S1 S2]. constructor; [split; assumption|apply IHc; assumption]. }
+    assert (Hsz : Forall (fun c => N.of_nat (length c) < 2 ^ 64) (chunks (length items) batch items)).
+    { eapply Forall_impl; [|exact Hf]. intros c [_ Hl]. lia. }
+    clear Hc Hf. generalize dependent (chunks (length items) batch items). intros cs Hall Hsz.
+    induction cs as [|c cs IHc]; [reflexivity|].
+    inversion Hsz as [|? ? Hl Hsz']; subst. inversion Hall as [|? ? [Tc Sc] Hall']; subst.
+    cbn [map concat]. rewrite cbytes_app, cbytes_cons, var64 by lia.
+    rewrite (cdata_bytes t c (cpp_wops_bytes t) Tc Sc), (IHc Hall' Hsz'). unfold cpp_block. rewrite <- app_assoc. reflexivity.
+Qed.
+
+Lemma len_concat_nonempty : forall (cs : list (list val)), Forall (fun c => c <> []) cs -> (length cs <= length (concat cs))%nat.
+Proof.
+  intros cs H. induction H as [|c cs Hc _ IH]; [cbn; lia|]. cbn [length concat]. rewrite app_length.
+  destruct c; [contradiction|cbn [length]; lia].
+Qed.
+
+Lemma forallb_concat : forall (f : val -> bool) (cs : list (list val)), forallb f (concat cs) = true ->
+  Forall (fun c => forallb f c = true) cs.
+Proof.
+  intros f cs. induction cs as [|c cs IH]; intros H; [constructor|]. cbn [concat] in H. rewrite forallb_app in H.
+  apply andb_true_iff in H. destruct H as [H1 H2]. constructor; [assumption|apply IH; assumption].
+Qed.
+
+(* what the generated C++ writer emits for a stream step copied with ANY batch capacity is read back, item by item, as the
+   items in order *)
+Theorem cpp_stream_any_batch : forall t batch items fuel rest,
+  forallb (has_type t) items = true -> forallb vsmall items = true -> N.of_nat (length items) < 2 ^ 64 ->
+  (length items < fuel)%nat ->
+  arun_c (cpp_read_stream fuel t) (cbytes (cpp_stream_ops t batch items) ++ rest) = CVal items rest.
+Proof.
+  intros t batch items fuel rest Hty Hsm Hlen Hf.
+  rewrite (cpp_stream_bytes t batch items Hty Hsm Hlen), <- app_assoc.
+  set (blocks := if Nat.leb batch 1 then map (fun x => [x]) items else chunks (length items) batch items).
+  assert (Hb : concat blocks = items /\ (length blocks <= length items)%nat /\
+               forallb (fun b => nonempty b && forallb (has_type t) b && forallb vsmall b && (N.of_nat (length b) <? 2 ^ 64)) blocks = true).
+  { unfold blocks. destruct (Nat.leb batch 1) eqn:Eb.
+    - clear blocks Hlen Hf. induction items as [|x items IH]; [repeat split; reflexivity || (cbn; lia)|].
+      cbn [forallb] in Hty, Hsm. apply andb_true_iff in Hty. destruct Hty as [Hx Hxs]. apply andb_true_iff in Hsm. destruct Hsm as [Sx Sxs].
+      destruct (IH Hxs Sxs) as [H1 [H2 H3]]. cbn [map concat app length forallb nonempty]. rewrite H1, Hx, Sx, H3. cbn. repeat split; lia.
+    - apply Nat.leb_gt in Eb.
+      destruct (chunks_spec val (length items) batch items ltac:(lia) ltac:(lia)) as [Hc Hfa]. split; [assumption|]. split.
+      + assert (Hle : (length (chunks (length items) batch items) <= length (concat (chunks (length items) batch items)))%nat).
+        { apply len_concat_nonempty. eapply Forall_impl; [|exact Hfa]. intros c [Hne _]. exact Hne. }
+        rewrite Hc in Hle. exact Hle.
+      + rewrite <- Hc in Hty, Hsm. pose proof (forallb_concat _ _ Hty) as FT. pose proof (forallb_concat _ _ Hsm) as FS.
+        assert (FL : Forall (fun c => c <> [] /\ N.of_nat (length c) < 2 ^ 64) (chunks (length items) batch items)).
+        { eapply Forall_impl; [|exact Hfa]. intros c [Hne Hl]. split; [assumption|lia]. }
+        clear Hc Hfa Hty Hsm. clear blocks. generalize dependent (chunks (length items) batch items). intros cs FT FS FL.
+        induction cs as [|c cs IH]; [reflexivity|].
+        inversion FT as [|? ? T1 FT']; subst. inversion FS as [|? ? S1 FS']; subst. inversion FL as [|? ? [N1 L1] FL']; subst.
+        cbn [forallb]. rewrite T1, S1, (IH FT' FS' FL').
+        assert (Ne : nonempty c = true) by (destruct c; [contradiction|reflexivity]). rewrite Ne.
+        assert (Le : (N.of_nat (length c) <? 2 ^ 64) = true) by lia. rewrite Le. reflexivity. }
+  destruct Hb as [H1 [H2 H3]]. rewrite (cpp_read_stream_roundtrip t blocks fuel rest H3 ltac:(lia)), H1. reflexivity.
+Qed.
+
+(* ---------- the header check of the C++ reader ---------- *)
+Lemma run_cfixed : forall A (k : rval -> cprog A) w n r, n < 256 ^ N.of_nat w ->
+  arun_c (COp (RFixed w) k) (le_enc w n ++ r) = arun_c (k (VNum n)) r.
+Proof. intros A k w n r H. cbn [arun_c astep]. rewrite take_le_enc, le_dec_enc by assumption. reflexivity. Qed.
+
+Theorem cpp_header_own : forall schema rest, N.of_nat (length schema) < 2 ^ 64 ->
+  arun_c (cpp_read_header schema) (enc_header schema ++ rest) = CVal tt rest.
+Proof.
+  intros schema rest Hl. unfold cpp_read_header, enc_header. rewrite <- !app_assoc.
+  change 5 with (N.of_nat (length magic)). rewrite run_cbytes. rewrite list_eq_N_refl. cbn [negb].
+  rewrite run_cfixed by (vm_compute; reflexivity). rewrite N.eqb_refl. cbn [negb].
+  rewrite run_cvar64 by assumption. rewrite run_cbytes, list_eq_N_refl. reflexivity.
+Qed.
+
+Theorem cpp_header_foreign : forall sa sb rest, sa <> sb -> N.of_nat (length sa) < 2 ^ 64 ->
+  arun_c (cpp_read_header sb) (enc_header sa ++ rest) = CBad.
+Proof.
+  intros sa sb rest Hne Hl. unfold cpp_read_header, enc_header. rewrite <- !app_assoc.
+  change 5 with (N.of_nat (length magic)). rewrite run_cbytes. rewrite list_eq_N_refl. cbn [negb].
+  rewrite run_cfixed by (vm_compute; reflexivity). rewrite N.eqb_refl. cbn [negb].
+  rewrite run_cvar64 by assumption. rewrite run_cbytes.
+  destruct (list_eq_N sa sb) eqn:E; [apply list_eq_N_eq in E; contradiction|reflexivity].
+Qed.
+
+(* over the buffered stream, every buffer size: the foreign stream is refused before any value is read *)
+Theorem cpp_header_foreign_buffered : forall b sa sb rest, (0 < b)%nat -> sa <> sb -> N.of_nat (length sa) < 2 ^ 64 ->
+  mrun_c b (cpp_read_header sb) (cin_init (enc_header sa ++ rest)) = CMBad.
+Proof.
+  intros b sa sb rest Hb Hne Hl.
+  assert (Hi : Inv b (cin_init (enc_header sa ++ rest))) by (split; cbn; [discriminate|lia]).
+  pose proof (cprog_refines unit b (cpp_read_header sb) (cin_init (enc_header sa ++ rest)) Hb Hi) as H.
+  change (pending (cin_init (enc_header sa ++ rest))) with (enc_header sa ++ rest) in H.
+  rewrite (cpp_header_foreign sa sb rest Hne Hl) in H. exact H.
+Qed.
+
+(* ---------- a whole protocol, written and read by generated C++ ---------- *)
+Inductive cresult := CRV (v : val) | CRI (xs : list val).
+
+Fixpoint cpp_read_steps (fuel : nat) (steps : list step) : cprog (list cresult) :=
+  match steps with
+  | [] => CRet []
+  | SValue t :: r => cbind (cpp_read t) (fun v => cbind (cpp_read_steps fuel r) (fun rs => CRet (CRV v :: rs)))
+  | SStream t :: r => cbind (cpp_read_stream fuel t) (fun xs => cbind (cpp_read_steps fuel r) (fun rs => CRet (CRI xs :: rs)))
+  end.
+
+(* header, steps, then Close(): VerifyFinished *)
+Definition cpp_read_protocol (fuel : nat) (schema : list N) (steps : list step) : cprog (list cresult) :=
+  cbind (cpp_read_header schema) (fun _ =>
+    cbind (cpp_read_steps fuel steps) (fun rs => COp RVerify (fun _ => CRet rs))).
+
+Definition cstep_of (s : cstep) : step := match s with CSVal t _ => SValue t | CSStream t _ _ => SStream t end.
+Definition cresult_of (s : cstep) : cresult := match s with CSVal _ v => CRV v | CSStream _ _ items => CRI items end.
+Definition cstep_typed (s : cstep) : bool :=
+  match s with
+  | CSVal t v => has_type t v && vsmall v
+  | CSStream t _ items => forallb (has_type t) items && forallb vsmall items && (N.of_nat (length items) <? 2 ^ 64)
+  end.
+Definition cstep_items (s : cstep) : nat := match s with CSVal _ _ => O | CSStream _ _ items => length items end.
+
+Lemma cheader_ops_bytes : forall schema, N.of_nat (length schema) < 2 ^ 64 -> cbytes (cpp_header_ops schema) = enc_header schema.
+Proof.
+  intros schema H. unfold cbytes, cpp_header_ops, enc_header. cbn [map concat]. rewrite var64 by assumption.
+  cbn [wbytes]. rewrite app_nil_r. reflexivity.
+Qed.
+
+Lemma csteps_roundtrip : forall steps fuel rest,
+  forallb cstep_typed steps = true -> Forall (fun s => (cstep_items s < fuel)%nat) steps ->
+  arun_c (cpp_read_steps fuel (map cstep_of steps)) (cbytes (concat (map cstep_ops steps)) ++ rest) = CVal (map cresult_of steps) rest.
+Proof.
+  induction steps as [|s steps IH]; intros fuel rest Ht Hf; [reflexivity|].
+  cbn [forallb] in Ht. apply andb_true_iff in Ht. destruct Ht as [Hs Hss]. inversion Hf as [|? ? Hfs Hfss]; subst.
+  cbn [map concat]. rewrite cbytes_app, <- app_assoc. destruct s as [t v|t b items]; cbn [cstep_of cpp_read_steps cstep_ops cresult_of cstep_typed cstep_items] in *.
+  - apply andb_true_iff in Hs. destruct Hs as [Ht Hv].
+    rewrite arun_cbind, (cpp_wops_bytes t v Ht Hv), (cpp_read_roundtrip t v _ Ht Hv), arun_cbind, (IH fuel rest Hss Hfss). reflexivity.
+  - apply andb_true_iff in Hs. destruct Hs as [Hs Hl]. apply andb_true_iff in Hs. destruct Hs as [Ht Hv].
+    rewrite arun_cbind, (cpp_stream_any_batch t b items fuel _ Ht Hv ltac:(lia) Hfs), arun_cbind, (IH fuel rest Hss Hfss). reflexivity.
+Qed.
+
+(* header, every step (streams copied with any batch capacity), and nothing after: the reader returns the values and
+   VerifyFinished succeeds *)
+Theorem cpp_protocol_roundtrip : forall schema steps fuel, N.of_nat (length schema) < 2 ^ 64 ->
+  forallb cstep_typed steps = true -> Forall (fun s => (cstep_items s < fuel)%nat) steps ->
+  arun_c (cpp_read_protocol fuel schema (map cstep_of steps)) (cbytes (cpp_protocol_ops schema steps))
+  = CVal (map cresult_of steps) [].
+Proof.
+  intros schema steps fuel Hl Ht Hf. unfold cpp_read_protocol, cpp_protocol_ops.
+  rewrite cbytes_app, (cheader_ops_bytes schema Hl), arun_cbind, cpp_header_own by assumption.
+  rewrite arun_cbind. pose proof (csteps_roundtrip steps fuel [] Ht Hf) as H. rewrite app_nil_r in H. rewrite H. reflexivity.
+Qed.
